@@ -142,6 +142,16 @@ theorem sfine_one_outstanding_at_write {s : Ocpp.ServerFine.St} (h : SFine.Reach
     (i x : Nat) (hc : s.cur = some i) (hx : x ∈ Ocpp.ServerFine.getQ s.qs i) : x ∉ s.wire :=
   SFine.one_outstanding_at_write h hh hp i x hc hx
 
+/-- CALLs are written to a client in the order in which the send API accepted them (server dispatcher, every
+    interleaving, across reconnections): if `a` was written before `b`, `a` was accepted before `b` -/
+theorem sfine_written_in_acceptance_order (t d : Bool) (ls : List Ocpp.ServerFine.Label) (s : Ocpp.ServerFine.St)
+    (h : Ocpp.ServerFine.runL { tmo := t, dropW := d } ls = some s) : s.wire.Pairwise (SFine.older s.used) :=
+  SFine.written_in_acceptance_order t d ls s h
+
+example : (Ocpp.ServerFine.runL {} [.connect, .sget, .push 1 0, .notify, .sget, .push 2 0, .notify, .takeReq, .pstep, .pstep, .pstep, .pstep,
+    .pstep, .pstep, .pstep, .writeOk, .pstep, .reply 1, .rstep, .rstep, .rstep, .rstep, .rstep, .rstep,
+    .takeReady, .pstep, .pstep, .pstep, .pstep, .pstep, .pstep, .pstep, .writeOk]).map (fun s => (s.wire, s.used)) = some ([1, 2], [2, 1]) := by decide
+
 example : ∃ s, SFine.Reach s ∧ s.pump = .wr 1 :=
   ⟨_, ⟨true, true, true, [.connect, .sget, .push 1 0, .notify, .takeReq, .pstep, .pstep, .pstep, .pstep, .pstep, .pstep, .pstep], rfl⟩, by decide⟩
 
